@@ -554,7 +554,7 @@ def run(ctx):
 
         def one(i):
             return run_case(cases[i])
-        per_case = pmap(one, len(cases), chunk=max(1, min(200, len(cases) // 64)))
+        per_case = pmap(one, len(cases), chunk=8)
         ctx.phase("model_checking (rest)")
         mfut.result()
     ctx.cov["states"] += gen_states
